@@ -80,6 +80,11 @@ type Msg struct {
 	// header only; 2 = appends a footer to the first body part (idempotent); 3 = adds an attachment unless it is
 	// already there. Effective() is the program the rendering must correspond to.
 	MW int `json:"mw,omitempty"`
+	// Setters: the attributes are not given as options but through setters — 1: message encoding / charset / boundary
+	// through Msg.SetEncoding / SetCharset / SetBoundary right after NewMsg; 2: the message is first assembled with
+	// default attributes (parts with a placeholder media type) and everything is set afterwards: Msg.SetEncoding /
+	// SetCharset / SetBoundary and, per part, Part.SetContentType / SetEncoding / SetCharset / SetDescription
+	Setters int `json:"setters,omitempty"`
 }
 
 // MWFooter is the text middleware 2 appends; MWFile is the attachment middleware 3 adds.
@@ -167,14 +172,25 @@ func producer(content []byte) func(io.Writer) (int64, error) {
 // Build constructs the message. Errors of builder calls are returned (the message is still usable).
 func Build(s Msg, h *Hooks) (*mail.Msg, error) {
 	var opts []mail.MsgOption
-	if s.Enc != "" {
+	if s.Enc != "" && s.Setters == 0 {
 		opts = append(opts, mail.WithEncoding(EncOf(s.Enc)))
 	}
-	if s.Boundary != "" {
+	if s.Boundary != "" && s.Setters == 0 {
 		opts = append(opts, mail.WithBoundary(s.Boundary))
 	}
-	if s.Charset != "" {
+	if s.Charset != "" && s.Setters == 0 {
 		opts = append(opts, mail.WithCharset(mail.Charset(s.Charset)))
+	}
+	msgSetters := func(m *mail.Msg) {
+		if s.Enc != "" {
+			m.SetEncoding(EncOf(s.Enc))
+		}
+		if s.Boundary != "" {
+			m.SetBoundary(s.Boundary)
+		}
+		if s.Charset != "" {
+			m.SetCharset(mail.Charset(s.Charset))
+		}
 	}
 	if s.NoUA {
 		opts = append(opts, mail.WithNoDefaultUserAgent())
@@ -183,6 +199,9 @@ func Build(s Msg, h *Hooks) (*mail.Msg, error) {
 		opts = append(opts, mail.WithMiddleware(middleware{s.MW}))
 	}
 	m := mail.NewMsg(opts...)
+	if s.Setters == 1 {
+		msgSetters(m)
+	}
 	var firstErr error
 	note := func(err error) {
 		if err != nil && firstErr == nil {
@@ -250,6 +269,7 @@ func Build(s Msg, h *Hooks) (*mail.Msg, error) {
 		}
 		return def
 	}
+	var later []func()
 	for i, p := range s.Parts {
 		var po []mail.PartOption
 		if p.Enc != "" {
@@ -262,6 +282,33 @@ func Build(s Msg, h *Hooks) (*mail.Msg, error) {
 			po = append(po, mail.WithPartCharset(mail.Charset(p.Charset)))
 		}
 		w := wrap(fmt.Sprintf("part%d", i), p.Content)
+		ptype := p.Type
+		if s.Setters == 2 {
+			po, p.Type = nil, "text/x-placeholder"
+			if p.Via == "tpl" && ctOf(ptype) == mail.TypeTextHTML {
+				p.Type = "text/html" // (the template kind is chosen by the type)
+			}
+			later = append(later, func(i int, p Part) func() {
+				return func() {
+					ps := m.GetParts()
+					if i >= len(ps) {
+						return
+					}
+					ps[i].SetContentType(ctOf(ptype))
+					enc := p.Enc
+					if enc == "" {
+						enc = s.Enc
+					}
+					ps[i].SetEncoding(EncOf(enc))
+					if p.Charset != "" {
+						ps[i].SetCharset(mail.Charset(p.Charset))
+					}
+					if p.Desc != "" {
+						ps[i].SetDescription(p.Desc)
+					}
+				}
+			}(i, p))
+		}
 		switch {
 		case p.Via == "tpl" && ctOf(p.Type) == mail.TypeTextHTML:
 			tpl := ht.Must(ht.New("p").Parse("{{.}}"))
@@ -425,6 +472,12 @@ func Build(s Msg, h *Hooks) (*mail.Msg, error) {
 		mkFiles("embed", s.Embeds, false)
 		mkFiles("attach", s.Attach, true)
 	}
+	if s.Setters == 2 {
+		msgSetters(m)
+		for _, f := range later {
+			f()
+		}
+	}
 	if s.SMIME != 0 {
 		mat := hx.Mat()
 		kp := mat.SignRSA
@@ -485,6 +538,9 @@ func (s Msg) Describe() string {
 	}
 	if s.MW != 0 {
 		fmt.Fprintf(&b, " middleware=%d", s.MW)
+	}
+	if s.Setters != 0 {
+		fmt.Fprintf(&b, " attributes-through-setters=%d", s.Setters)
 	}
 	if s.Recycle != 0 {
 		fmt.Fprintf(&b, " recycled-msg=%d", s.Recycle)
